@@ -362,6 +362,7 @@ class Norm:
         self._field_types: Dict[str, Type] = {}
         self.opaque_funcs: set = set()  # fq names never inlined (kept as ('call', fq, args))
         self._local_tables: Dict[int, Dict[str, Any]] = {}
+        self.touched: set = set()  # fq names of every function whose body was interpreted (soundness guards look at these)
 
     # ------------------------------------------------------------ contexts
     def ctx_for(self, fi: FuncInfo, subst_locals: bool = True) -> Ctx:
@@ -681,6 +682,7 @@ class Norm:
                 sub.vars[p.arg] = (dt, pty)
             else:
                 sub.vars[p.arg] = (("sym", p.arg), pty)
+        self.touched.add(fi.fq)
         out = self._exec_block(fi.body, sub)
         if out is None:
             return self._opaque(fi, recv, args)
